@@ -458,7 +458,41 @@ func genReq(r *common.Rng, keys []string, ties bool) reqSpec {
 			q.Exc = append(q.Exc, keys[r.Intn(len(keys))])
 		}
 	}
-	if r.Chance(35) {
+	if r.Chance(14) {
+		// an OR whose legs are all indexable (EQUAL / IN on plain fields, mostly distinct fields):
+		// answered as the union of several bucket lookups
+		g := &hydrapb.FilterGroup{Logic: hydrapb.FilterLogic_OR}
+		paths := []string{"a", "b", "c", "n.x", "a"}
+		off := r.Intn(len(paths))
+		for i, n := 0, 2+r.Intn(2); i < n; i++ {
+			p := paths[(off+i)%len(paths)]
+			f := &hydrapb.TreasureFilter{BytesFieldPath: &p}
+			if r.Chance(25) {
+				f.Operator = hydrapb.Relational_INT64_IN
+				for j, m := 0, 1+r.Intn(3); j < m; j++ {
+					f.Int64InVals = append(f.Int64InVals, int64(r.Intn(4)))
+				}
+			} else {
+				f.Operator = hydrapb.Relational_EQUAL
+				genCmp(r, f)
+			}
+			if r.Chance(20) {
+				l := "u" + p
+				f.Label = &l
+			}
+			g.Filters = append(g.Filters, f)
+		}
+		if r.Chance(40) { // consumed as a sub-group of an AND
+			q.F = &hydrapb.FilterGroup{SubGroups: []*hydrapb.FilterGroup{g}}
+			if r.Bool() {
+				q.F.Filters = []*hydrapb.TreasureFilter{genLeg(r, true)}
+				q.F.Filters[0].Operator = hydrapb.Relational_NOT_EQUAL
+				genCmp(r, q.F.Filters[0])
+			}
+		} else {
+			q.F = g
+		}
+	} else if r.Chance(35) {
 		q.F = &hydrapb.FilterGroup{Filters: []*hydrapb.TreasureFilter{genLeg(r, true)}}
 		if r.Chance(40) {
 			q.F.Filters = append(q.F.Filters, genLeg(r, true))
